@@ -15,7 +15,7 @@ from ..rt import scen
 NAMES = ["FailStopSafe", "CauseFaithful", "FailStopObserved"]
 HOWS = {
     "val": ["val:0", "val:0.0", "val:False", "val:''", "val:[]", "val:()", "val:x", "val:obj"],
-    "exc": ["exc:LookupError", "exc:UserExc", "exc:UserExcSub", "exc:RuntimeError"],
+    "exc": ["exc:LookupError", "exc:UserExc", "exc:UserExcSub", "exc:RuntimeError", "exc:FalsyExc"],
     "base": ["base:UserBase", "base:SystemExit"],
     "kbd": ["base:KeyboardInterrupt"],
     "none": ["none"],
@@ -98,6 +98,22 @@ def run(ctx):
             extra.append({"seed": ctx.seed + k, "jitter": 0.0, "payloads": pl,
                           "script": [{"op": "adopt", "p": "b1"}, {"op": "adopt", "p": "b2"}, {"op": "adopt", "p": "b3"}, {"op": "adopt", "p": "f"}, {"op": "accept"}, {"op": "wait_running"}, {"op": "wait_start", "p": "b1"}, {"op": "wait_start", "p": "b2"}, {"op": "wait_start", "p": "f"},
                                      {"op": "step", "p": "b1"}, {"op": "end", "p": "f", "how": how}, {"op": "wait_end", "timeout": 4.0}], "shape": "targeted-bystander-absorbs-cancel"})
+    # an exception OBJECT that is falsy is a failure like any other
+    for f in scen.FLAVS:
+        for reg in ("pre", "post"):
+            pl = {"f": {"flavour": f}, "b1": {"flavour": "trio" if f == "asyncio" else "asyncio", "cleanup": 1}}
+            script = [{"op": "adopt", "p": "b1"}] + ([{"op": "adopt", "p": "f"}] if reg == "pre" else []) + [{"op": "accept"}, {"op": "wait_running"}] + ([] if reg == "pre" else [{"op": "adopt", "p": "f", "ctx": "thread"}])
+            script += [{"op": "wait_start", "p": "f"}, {"op": "step", "p": "f"}, {"op": "end", "p": "f", "how": "exc:FalsyExc"}, {"op": "wait_end", "timeout": 4.0}]
+            extra.append({"seed": ctx.seed, "jitter": 0.0, "payloads": pl, "script": script, "shape": "targeted-falsy-exception"})
+    # restart: the same runtime runs a second time (after a graceful stop); a payload adopted
+    # between the two runs belongs to the second one, and its failure ends that run
+    for f in scen.FLAVS:
+        for how in ("exc:UserExc", "val:0"):
+            pl = {"a1": {"flavour": "asyncio", "cleanup": 1}, "f": {"flavour": f}, "b2": {"flavour": "trio", "cleanup": 1}}
+            script = [{"op": "adopt", "p": "a1"}, {"op": "accept"}, {"op": "wait_running"}, {"op": "wait_start", "p": "a1"}, {"op": "shutdown", "ctx": "thread", "wait": True}, {"op": "wait_end", "timeout": 4.0},
+                      {"op": "adopt", "p": "f", "ctx": "driver", "force": True}, {"op": "adopt", "p": "b2", "ctx": "thread", "force": True}, {"op": "reaccept_start"},
+                      {"op": "wait_start", "p": "f", "force": True}, {"op": "wait_start", "p": "b2", "force": True}, {"op": "step", "p": "f", "force": True}, {"op": "end", "p": "f", "how": how, "force": True}, {"op": "reaccept_wait", "timeout": 4.0}]
+            extra.append({"seed": ctx.seed, "jitter": 0.0, "reaccept": True, "epoch": 2, "payloads": pl, "script": script, "shape": "targeted-restart-then-failure"})
     # two failures at nearly the same time, one of them a thread payload held between raising
     # and handing its failure to the loop thread (the only two-step hand-over): the run ends,
     # with one of the two as its cause, whatever the other runner is doing at that moment
